@@ -110,6 +110,12 @@ impl Plan {
       m => format!("{}#{}", HOLDER, Plan::frag(m)),
     }
   }
+  /// The signing method's id with its DID shortened by one character / extended by one character: another DID, names no method.
+  fn near_method_id(m: u8, longer: bool) -> String {
+    let id = Plan::method_id(m);
+    let (did, frag) = id.split_once('#').unwrap();
+    if longer { format!("{}x#{}", did, frag) } else { format!("{}#{}", &did[..did.len() - 1], frag) }
+  }
   fn key_of(m: u8) -> Key {
     match m {
       0 => k1(),
@@ -157,7 +163,7 @@ impl Plan {
     let lookup: Option<u8> = match self.method_id_override {
       1 => Some(self.method),
       2 => Some(other),
-      3 | 4 => None,
+      3..=6 => None,
       _ => match self.kid {
         0 | 1 | 2 => Some(self.method),
         _ => None,
@@ -351,6 +357,12 @@ fn build(rng: &mut Rng, p: &Plan, other: u8) -> Built {
       // the holder's own DID with the fragment of the foreign-DID method the document lists: names no method
       h.insert("kid".into(), json!(format!("{}#kf", HOLDER)));
     }
+    7 => {
+      h.insert("kid".into(), json!(Plan::near_method_id(p.method, false)));
+    }
+    8 => {
+      h.insert("kid".into(), json!(Plan::near_method_id(p.method, true)));
+    }
     _ => {}
   }
   match p.nonce_hdr {
@@ -391,6 +403,8 @@ fn build(rng: &mut Rng, p: &Plan, other: u8) -> Built {
     2 => vo = vo.method_id(DIDUrl::parse(Plan::method_id(other)).unwrap()),
     3 => vo = vo.method_id(DIDUrl::parse(format!("{}#nope", HOLDER)).unwrap()),
     4 => vo = vo.method_id(DIDUrl::parse(format!("{}#kf", HOLDER)).unwrap()),
+    5 => vo = vo.method_id(DIDUrl::parse(Plan::near_method_id(p.method, false)).unwrap()),
+    6 => vo = vo.method_id(DIDUrl::parse(Plan::near_method_id(p.method, true)).unwrap()),
     _ => {}
   }
   let mut options = JwtPresentationValidationOptions::new()
@@ -422,13 +436,13 @@ fn mutate_one(rng: &mut Rng, p: &mut Plan, which: u64) {
   match which {
     0 => p.sig = 1 + rng.below(3) as u8,
     1 => {
-      p.kid = 3 + rng.below(4) as u8;
+      p.kid = 3 + rng.below(6) as u8;
       if p.kid == 6 {
         p.method = 2; // signed by the foreign method's key, named under the holder's DID
       }
     }
     2 => {
-      p.method_id_override = 2 + rng.below(3) as u8;
+      p.method_id_override = 2 + rng.below(5) as u8;
       if p.method_id_override == 4 {
         p.method = 2;
       }
